@@ -145,18 +145,36 @@ Fixpoint robj (P : rparams) (o : obj) : rres :=
 
 Definition memN (x : N) (l : list N) : bool := existsb (N.eqb x) l.
 
+(* hwloc__reorder_memory_children (fix c78f232): dequeue every memory child in order and
+   enqueue it before the first already-enqueued sibling whose complete_nodeset starts
+   strictly higher (compare_first(child, sibling) >= 0 advances: the sort is stable) *)
+Definition mem_first_ge (a b : obj) : bool :=
+  negb (first_gt (oset (o_cnds (odata b))) (oset (o_cnds (odata a)))).
+Fixpoint insert_mem_child (c : obj) (l : list obj) : list obj :=
+  match l with
+  | [] => [c]
+  | e :: tl => if mem_first_ge c e then e :: insert_mem_child c tl else c :: l
+  end.
+Definition reorder_memory_children (l : list obj) : list obj := fold_left (fun acc c => insert_mem_child c acc) l [].
+(* the concatenation of the two memory lists, re-sorted only when both are non-empty *)
+Definition merge_memory (a b : list obj) : list obj :=
+  match a, b with
+  | _ :: _, _ :: _ => reorder_memory_children (a ++ b)
+  | _, _ => a ++ b
+  end.
+
 (* remove a whole level: [ids] = the objects of the upper level (each has exactly
    one normal child, which is in the lower level).  replacechild: the parent takes
    the child's normal children; replaceparent: the child takes the parent's place.
    In both cases the special lists are parent's ++ child's (append_siblings_list /
-   prepend_siblings_list). *)
+   prepend_siblings_list); the memory list is then re-sorted (merge_memory). *)
 Fixpoint merge_tree (ids : list N) (replacechild : bool) (o : obj) : obj :=
   match o with
   | Obj d n m i x =>
       let n' := (fix go (l : list obj) : list obj := match l with [] => [] | c :: tl => merge_tree ids replacechild c :: go tl end) n in
       if memN (o_id d) ids then
         match n' with
-        | [Obj dc cn cm ci cx] => Obj (if replacechild then d else dc) cn (m ++ cm) (i ++ ci) (x ++ cx)
+        | [Obj dc cn cm ci cx] => Obj (if replacechild then d else dc) cn (merge_memory m cm) (i ++ ci) (x ++ cx)
         | _ => Obj d n' m i x
         end
       else Obj d n' m i x
